@@ -204,7 +204,7 @@ def check(ctx):
         for msg, case in bad:
             ctx.violation(case, "measurement: m=%d %s N=%d qubits=%s %s: %s" % (case["m"], case["conn"], case["N"], case["qubits"], case["which"], msg))
     ctx.sample({"measurement_case": {"m": 3, "conn": "linear", "N": 5, "qubits": [4, 0, 2], "which": "tomography"}})
-    units = conform.standard_units(ctx.tier, sign_mode="light", thin=(3 if quick else 1))
+    units = conform.standard_units(ctx.tier, sign_mode="light", thin=3)
     conform.run_units(ctx, judge, units)
     ctx.count("transitions", ctx.counters.get("api_cases", 0) + ctx.counters.get("measurement_cases", 0))
     ctx.count("traces_validated_against_impl", ctx.counters.get("measurement_cases", 0) + ctx.counters.get("table_circuits", 0))
